@@ -1,0 +1,17 @@
+//go:build verif
+
+package utils
+
+// VerifGF exposes the field of a Reed-Solomon encoder to the /verif harness.
+func (rs *ReedSolomonEncoder) VerifGF() *GaloisField { return rs.gf }
+
+// VerifPolynomes returns a copy of the generator-polynomial cache.
+func (rs *ReedSolomonEncoder) VerifPolynomes() [][]int {
+	rs.m.Lock()
+	defer rs.m.Unlock()
+	res := make([][]int, len(rs.polynomes))
+	for i, p := range rs.polynomes {
+		res[i] = append([]int(nil), p.Coefficients...)
+	}
+	return res
+}
